@@ -202,6 +202,13 @@ Lemma smooth1_scale_loc n k x kap scale loc p :
   (smooth1 n k x kap scale loc p == scale * smooth1 n k x kap 1 0 p + loc)%Q.
 Proof. unfold smooth1, smooth1_w. ring. Qed.
 
+Lemma smooth1_zero_scale n k x kap loc p : (smooth1 n k x kap 0 loc p == loc)%Q.
+Proof. unfold smooth1, smooth1_w. ring. Qed.
+
+Lemma smooth1_defaults n k x kap p :
+  (smooth1 n k x kap default_scale default_location p == smooth1 n k x kap 1 0 p)%Q.
+Proof. reflexivity. Qed.
+
 (* ---------------- impulse response ---------------- *)
 Lemma lin_delta n k kap p0 t :
   0 <= p0 < n -> (lin n k (delta p0) kap t == pad k kap (t - p0))%Q.
